@@ -18,6 +18,7 @@ import (
 	"time"
 
 	"github.com/irai/packet"
+	"github.com/irai/packet/fastlog"
 	"github.com/irai/packet/handlers/arp_spoofer"
 	"github.com/irai/packet/handlers/icmp_spoofer"
 	"verif/harness/c13"
@@ -324,6 +325,16 @@ func evalIcmp4(line string) *core.Case {
 }
 
 func Eval(c *core.Ctx, line string) *core.Case {
+	// every other line runs with the handlers' loggers at debug level (a function of the line, so a replay
+	// reproduces it): all log lines are then formatted - output discarded - and a panicking log call is a handler panic
+	lvl := fastlog.LevelInfo
+	if len(line)%4 < 2 {
+		lvl = fastlog.LevelDebug
+	}
+	arp_spoofer.Logger.SetLevel(lvl)
+	icmp_spoofer.Logger4.SetLevel(lvl)
+	icmp_spoofer.Logger6.SetLevel(lvl)
+	packet.Logger.SetLevel(lvl)
 	switch {
 	case strings.HasPrefix(line, "hnd.arp "):
 		return evalArp(line)
